@@ -89,7 +89,7 @@ func RunC40(t *testing.T, cd *Codec) {
 	c.Assume("go-codec with the canonical handle of protocol/codec.go is the reference encoder named by the property; types holding msgp.Raw are compared on the msgp path only (upstream: go-codec cannot reproduce a spliced Raw)")
 	n := c.N(200, 10000) // instances per type
 	if c.Lane != "plain" {
-		n = c.N(100, 600)
+		n = c.N(60, 120)
 	}
 	registry := msgpmon.Packages()
 	if len(registry) == 0 {
